@@ -129,9 +129,51 @@ def check_giant(case):
     return engine.ok(True, cl, {"width": g["width"], "kind": g["kind"]}, key="giant:%d:%s" % (g["width"], g["kind"]))
 
 
+def check_history(case):
+    """the object has a history when it is written: a first file, a large file of the other kind that is refused, a second file
+    of the right kind, alignment, the three writers.  The files must describe the rows that were aligned (molecule type
+    included), whatever was offered to the object before."""
+    h = case["hist"]
+    rnd_seed, kind = h["seed"], h["kind"]
+    alpha, other = (gen.NUC, gen.AA) if kind == "dna" else (gen.AA, gen.NUC)
+    fam = gen.expand_family(rnd_seed, alpha, 7, 150, 0.1, 0.03, 0.0)
+    big = gen.expand_random(rnd_seed + 1, other, h.get("nbig", 8), 300, 500)
+    names = ["s%d" % i for i in range(len(fam))]
+    wd = runner.workdir()
+    f1 = wd.write(kal.fasta_bytes(names[:3], fam[:3]), ".fa")
+    fx = wd.write(kal.fasta_bytes(["x%d" % i for i in range(len(big))], big), ".fa")
+    f2 = wd.write(kal.fasta_bytes(names[3:], fam[3:]), ".fa")
+    outs = {fmt: wd.path("." + fmt) for fmt in ("fasta", "clu", "msf")}
+    lines = ["read 0 1 %s" % f1, "read 0 1 %s" % fx, "read 0 1 %s" % f2, "run 0 1 5 -1 -1 -1", "dump 0"] + \
+            ["write 0 %s %s" % (fmt, outs[fmt]) for fmt in ("fasta", "clu", "msf")] + ["free 0"]
+    pr = runner.run_probe(lines)
+    if pr.ended.bad or pr.ended.rc != 0 or pr.steps is None or len(pr.steps) != len(lines):
+        return engine.violation({"what": "process failure", **pr.ended.brief()}, kind="crash")
+    st_ = pr.steps
+    cl = ["source=kalign", "kind=%s" % kind, "object_history"]
+    if st_[0]["rc"] != 0 or st_[2]["rc"] != 0 or st_[3]["rc"] != 0 or st_[4].get("msa") is None:
+        return engine.discard("source alignment could not be produced (C01/C06 territory)", classes=cl)
+    if st_[1]["rc"] == 0:
+        return engine.discard("the file of the other kind was not refused (C13 territory)", classes=cl)
+    tn, tr = kal.msa_rows(st_[4]["msa"])
+    if tn != names:
+        return engine.discard("source names differ (C01/C06 territory)", classes=cl)
+    for k, fmt in enumerate(("fasta", "clu", "msf")):
+        if st_[5 + k]["rc"] != 0:
+            return engine.violation({"what": "write(%s) failed" % fmt}, classes=cl, kind="status")
+        with open(outs[fmt], "rb") as fh:
+            text = fh.read().decode("latin-1")
+        bad = judge_file(fmt, text, tn, tr, kind)
+        if bad:
+            return engine.violation({"what": bad + " (after a refused file of the other kind)", "head": text[:300]}, classes=cl)
+    return engine.ok(True, cl, {"kind": kind, "rows": len(tr), "width": len(tr[0])}, key="hist:%s:%d" % (kind, rnd_seed))
+
+
 def check(case):
     if case.get("giant"):
         return check_giant(case)
+    if case.get("hist"):
+        return check_history(case)
     src = case["src"]
     wd = runner.workdir()
     if src["source"] == "synthetic":
@@ -259,6 +301,12 @@ def extra(tier, seed, stats):
             stats.classes["empty_records_enumerated"] += 1
             if r["status"] == "violation":
                 out.append({"case": c, "detail": r["detail"], "kind": r.get("kind")})
+    for i, kind in enumerate(("dna", "protein", "dna", "protein")):
+        c = {"hist": {"seed": seed * 11 + i, "kind": kind, "nbig": 8 if i < 2 else 30}}
+        r = check_history(c)
+        stats.record(c, r)
+        if r["status"] == "violation":
+            out.append({"case": c, "detail": r["detail"], "kind": r.get("kind")})
     widths = [2300000] if tier == "quick" else [900000, 1700000, 2300000, 3400000, 5000000]
     for i, W in enumerate(widths):
         for kind in (("protein",) if tier == "quick" else ("protein", "dna")):
